@@ -39,10 +39,12 @@ class Rewrite(ast.NodeTransformer):
                 all(k.arg is not None for k in node.keywords):
             return ast.copy_location(
                 ast.Call(ast.Name('sx__format', ast.Load()), [f.value] + node.args, node.keywords), node)
+        if isinstance(f, ast.Attribute) and f.attr == 'join' and len(node.args) == 1 and not node.keywords and \
+                not isinstance(node.args[0], ast.Starred):
+            # <sep>.join(x) for any receiver: str.join / bytes.join reject the symbolic proxies
+            return ast.copy_location(
+                ast.Call(ast.Name('sx__join', ast.Load()), [f.value, node.args[0]], []), node)
         if isinstance(f, ast.Attribute) and isinstance(f.value, ast.Constant) and not node.keywords:
-            if f.attr == 'join' and len(node.args) == 1:
-                return ast.copy_location(
-                    ast.Call(ast.Name('sx__join', ast.Load()), [f.value, node.args[0]], []), node)
             if f.attr == 'format' and isinstance(f.value.value, str) and \
                     not any(isinstance(a, ast.Starred) for a in node.args):
                 return ast.copy_location(
@@ -105,6 +107,8 @@ MOD_TO_SSTR = [False]   # C23: expand %x into symbolic digit characters instead 
 
 
 def sx_join(sep, it):
+    if not isinstance(sep, (str, bytes, bytearray, SBytes)) and type(sep).__name__ != 'SStr':
+        return sep.join(it)             # not a string join (e.g. os.path.join(x), Thread.join(t))
     items = list(it)
     if any(isinstance(x, SBytes) for x in items):
         out = SBytes([])
